@@ -18,7 +18,11 @@ def run(prop, widen=True):
     broken = any(l.startswith("VIOLATION") for l in lines)
     return {"rc": p.returncode, "concrete": concrete, "alarm": broken, "lines": [l[:300] for l in lines[:4]]}
 
-ids = sys.argv[1:] or sorted(d.name for d in S.iterdir() if (d / "patch.diff").exists())
+def live(d):
+    m = d / "meta.json"
+    return (d / "patch.diff").exists() and not (m.exists() and json.loads(m.read_text()).get("status") == "obsolete")
+
+ids = sys.argv[1:] or sorted(d.name for d in S.iterdir() if d.is_dir() and live(d))
 res_path = S / "RESULTS.json"
 res = json.loads(res_path.read_text()) if res_path.exists() else {}
 assert subprocess.run(["git", "-C", "/repo", "status", "--porcelain"], capture_output=True, text=True).stdout.strip() == "", "/repo not clean"
